@@ -913,3 +913,11 @@ def default_args(facts, path, heap, rename=None):
         else:
             args.append(Tok(rn(b.local_name(i) or "arg%d" % i, ty)))
     return args
+
+
+def run_it(facts, path, args, heap=None, oracle=None, inline=(), bind=None):
+    """like run(), but returns (return value, interpreter) so that the caller can render heap-resident values"""
+    it = Interp(facts, oracle, inline=inline, bind=bind)
+    it.heap = dict(heap or {})
+    ret = it.call_body(path, args, 0)
+    return ret, it
